@@ -25,7 +25,11 @@ U1 += [T(["L", "s", "-", "t", "+", "*"]), T(["S", "s", "*"]),
        T(["L", "s", "+", "y", "-", "*", "ID:Z:2"]),            # `y` as a segment
        # a path over s+ -> t-: it makes a placeholder for that link, which the
        # ID-tagged links above then replace (their ID may be the path's name)
-       T(["P", "1", "s+,t-", "*"])]
+       T(["P", "1", "s+,t-", "*"]),
+       # the placeholder `*` as value of the ID tag: the line has no identifier
+       T(["L", "s", "+", "t", "+", "1M", "ID:Z:*"]),
+       T(["L", "t", "+", "s", "+", "2M", "ID:Z:*"]),
+       T(["C", "s", "+", "t", "+", "0", "*", "ID:Z:*"])]
 U2 = []
 for i in IDS:
   U2 += [T(["S", i, "4", "*"]), T(["E", i, "s+", "t-", "0", "1", "0", "1", "*"]),
@@ -90,6 +94,41 @@ class S(explore.Spec):
         out.append("line({!r}) does not find the line carrying it".format(n))
     return out
 
+  def coherence_problems(self, g):
+    """Model-free: pairwise distinct identifiers, every identified line found
+    under its identifier, and no identifier carried by a line of the Gfa
+    while other lines still refer to a placeholder for it."""
+    out = []
+    try:
+      names = list(g.names)
+      ls, extra = observe.all_lines(g)
+    except Exception as e:
+      return ["names / lines raise " + type(e).__name__]
+    if len(names) != len(set(names)):
+      out.append("duplicate identifiers {}".format(sorted(names)))
+    real, virt = {}, set()
+    for l in ls + extra:
+      n = observe.line_name(l)
+      if n is None:
+        continue
+      if observe.is_virtual(l):
+        virt.add(n)
+      elif any(l is x for x in ls):
+        if n in real:
+          out.append("two lines carry {!r}".format(n))
+        real[n] = l
+    for n, l in real.items():
+      try:
+        if g.line(n) is not l:
+          out.append("line({!r}) does not return the line carrying it".format(n))
+      except Exception as e:
+        out.append("line({!r}) raises {}".format(n, type(e).__name__))
+    both = sorted(set(real) & virt)
+    if both:
+      out.append("{} carried by a line while other lines still refer to a "
+                 "placeholder of that name".format(both))
+    return out
+
   def judge(self, g, env, hist, op, err):
     try:
       d = c05.model_of(self.version, hist)
@@ -107,6 +146,11 @@ class S(explore.Spec):
         probs = self.namespace_problems(g, d)
         return [("refused-op-changed-namespace", p) for p in probs] or \
             [("skip", "left open, refused, namespace unchanged")]
+      if err is None:
+        # accepted: whichever outcome gfapy chose, the namespace is coherent
+        probs = self.coherence_problems(g)
+        if probs:
+          return [("open-op-incoherent-namespace", p) for p in probs]
       return [("skip", "left open: " + str(info))]
     if err is not None and not isinstance(err, gfapy.Error):
       return [("skip", "foreign exception (C07)")]
